@@ -195,3 +195,4 @@ def run(ctx):
     if E.unknown_externals:
         r.undecided('external contracts', msg=f'externals without contract in the cone: {sorted(E.unknown_externals)}')
     r.require_min(6)
+    ctx.borrow('c10', ['R10d'], 'the metadata checksum is accepted when it equals the standard or the historical CRC: the historical function must be the historical function')
